@@ -4120,3 +4120,90 @@ func sharedArrayPoolPut(c *an.Ctx, rule string) (examined int) {
 	}
 	return examined
 }
+
+// sharedStateNotRead is the rule for refreshes that replace a component's
+// state wholesale: the refresh function computes the new state from the newly
+// loaded data alone and never reads the state field it is about to replace (an
+// entry carried over from the old state keeps an old version, with its old
+// result cache, in service after a successful refresh).
+func sharedStateNotRead(c *an.Ctx, rule, fnKey, typ, field string) {
+	fn := c.Fn(fnKey)
+	key := fnKey + " builds " + field + " from the new data only"
+	if fn == nil {
+		c.Und(rule, key, token.NoPos, "anchor not found")
+		return
+	}
+	c.Analysed(fnKey)
+	reads, writes := 0, 0
+	var pos token.Pos
+	an.Instrs(fn, func(in ssa.Instruction) {
+		switch x := in.(type) {
+		case *ssa.UnOp:
+			if x.Op == token.MUL {
+				if t, f, _, ok := an.FieldOf(x.X); ok && t == typ && f == field {
+					reads++
+					pos = x.Pos()
+				}
+			}
+		case *ssa.Store:
+			if t, f, _, ok := an.FieldOf(x.Addr); ok && t == typ && f == field {
+				writes++
+			}
+		}
+	})
+	if writes == 0 {
+		c.Und(rule, key, fn.Pos(), "the refresh does not store %s.%s", typ, field)
+		return
+	}
+	if pos == token.NoPos {
+		pos = fn.Pos()
+	}
+	c.Check(reads == 0, rule, key, pos, "the old state is replaced without being read",
+		fmt.Sprintf("the refresh reads the %s it is replacing (%d reads): entries of the previous version can be carried over into the new state", field, reads))
+}
+
+// sharedGrowArith is the arithmetic rule for slices.Grow: Grow(s, n) guarantees
+// room for n more elements *after len(s)*, so "make s hold total elements" is
+// Grow(s, total-len(s)).  Subtracting cap(s) instead leaves the slice too small
+// whenever len(s) < cap(s) < total, and the reslice that follows panics.
+// Returns the number of Grow calls examined.
+func sharedGrowArith(c *an.Ctx, rule string, prefixes ...string) (examined int) {
+	for _, fn := range c.AllFns {
+		if fn.Blocks == nil || c.IsTestFile(fn.Pos()) {
+			continue
+		}
+		k := an.FnKey(fn)
+		in := false
+		for _, p := range prefixes {
+			if strings.HasPrefix(k, p) {
+				in = true
+			}
+		}
+		if !in {
+			continue
+		}
+		for _, call := range an.Calls(fn) {
+			n := an.CalleeName(call)
+			if i := strings.Index(n, "["); i >= 0 {
+				n = n[:i]
+			}
+			if n != "slices.Grow" {
+				continue
+			}
+			examined++
+			c.Analysed(k)
+			s, amount := call.Common().Args[0], call.Common().Args[1]
+			bad := ""
+			if bo, ok := amount.(*ssa.BinOp); ok && bo.Op == token.SUB {
+				if cc, isCall := bo.Y.(*ssa.Call); isCall {
+					if b, isB := cc.Call.Value.(*ssa.Builtin); isB && b.Name() == "cap" && cc.Call.Args[0] == s {
+						bad = "the amount is computed from cap(s)"
+					}
+				}
+			}
+			c.Check(bad == "", rule, k+" grows its buffer by the missing length", call.Pos(),
+				"the amount handed to slices.Grow is not derived from the capacity", bad+": Grow counts from len(s), so the buffer stays shorter than required when len(s) < cap(s)")
+		}
+	}
+	return examined
+}
